@@ -4,8 +4,10 @@ open A07lib
 
 let count_req toks = List.length (List.filter (function TR _ -> true | _ -> false) toks)
 
-let finish obs k pred want n =
-  (pred, verdict (obs = want) ("expected " ^ want), n >= 2)
+(* non-trivial: at least two requests and the case meets the hypotheses of the round-trip
+   theorem (wf) *)
+let finish obs k pred want n wf =
+  (pred, verdict (obs = want) ("expected " ^ want), n >= 2 && wf)
 
 let predict (c : string) (obs : string) : string * string * bool =
   match split_blank c with
@@ -38,7 +40,7 @@ let predict (c : string) (obs : string) : string * string * bool =
         let k = int_of_string p * n + 1 in
         let pred = print_run bld_entry k (uripost_decode url_parse cfg0 (nat_of_int k) fileb) in
         let want = print_expected bld_entry k (uripost_entries (List.map fst items) []) in
-        finish obs k pred want n
+        finish obs k pred want n (List.for_all (wf_pitem url_parse) items)
       end
   | "raw" :: p :: fin :: file :: toks ->
       let toks = List.map parse_tok toks in
@@ -53,7 +55,7 @@ let predict (c : string) (obs : string) : string * string * bool =
         let k = int_of_string p * n + 1 in
         let pred = print_run bld_raw k (raw_decode cfg0 (nat_of_int k) fileb) in
         let want = print_expected bld_raw k (raw_entries (List.map fst items)) in
-        finish obs k pred want n
+        finish obs k pred want n (List.for_all wf_ritem items)
       end
   | "json" :: p :: arr :: file :: toks ->
       let ents = List.map parse_entity toks in
@@ -77,7 +79,7 @@ let predict (c : string) (obs : string) : string * string * bool =
           else print_run bld_entry k (json_stream_decode url_parse cfg0 (nat_of_int k) ents JEof) in
         let es = List.filter_map (fun d -> match entity_entry url_parse d with Inl e -> Some e | Inr _ -> None) ents in
         let want = if List.length es <> n then "entity-rejected" else print_expected bld_entry k es in
-        finish obs k pred want n
+        finish obs k pred want n (List.length es = n)
       end
   | _ -> ("unknown-case", "BAD:unknown-case", false)
 
